@@ -29,8 +29,11 @@ def trace_case(arg):
     F = Findings(PROP)
     st = dict(records=0, single_write=0)
     logf = os.path.join(work, "log")
-    with open(logf, "wb") as f:
-        f.write(prefill)
+    if prefill is not None:
+        with open(logf, "wb") as f:
+            f.write(prefill)
+    else:
+        prefill = b""           # the log file does not exist yet: the first record has to create it (still in append mode)
     path = {"file": logf, "devnull": "/dev/null", "devtty": "/dev/tty"}[target]
     out = {"file": "file:" + logf, "devnull": "devnull", "devtty": "devtty"}[target]
     s = Script()
@@ -76,10 +79,11 @@ def trace_case(arg):
         wit = dict(target=target, record_bytes=reclen, syscalls=[x[3][:160] for x in w][:40])
         opens = [(a, r) for nm, a, r, _ in w if nm in ("open", "openat") and ('"%s"' % path) in a]
         st["records"] += 1
-        if len(opens) != 1:
-            F.violation("C17:open-count=%d:%s" % (len(opens), target), "%d opens of %s for one record of %d bytes" % (len(opens), path, reclen), wit)
+        ok_opens = [(a_, r_) for a_, r_ in opens if not r_.startswith("-")]
+        if len(ok_opens) != 1:
+            F.violation("C17:open-count=%d:%s" % (len(ok_opens), target), "%d successful opens of %s for one record of %d bytes" % (len(ok_opens), path, reclen), wit)
             continue
-        a, r = opens[0]
+        a, r = ok_opens[0]
         fd = r
         if "O_APPEND" not in a:
             F.violation("C17:not-opened-for-append:%s" % target, "open flags lack O_APPEND: %s" % a[-80:], wit)
@@ -120,9 +124,10 @@ def stress_round(arg):
     conf = os.path.join(work, "conf")
     os.makedirs(conf, exist_ok=True)
     logf = os.path.join(work, "log")
-    prefill = b"PREEXISTING LINE\n"
-    with open(logf, "wb") as f:
-        f.write(prefill)
+    prefill = b"PREEXISTING LINE\n" if idx % 2 == 0 else b""
+    if prefill:
+        with open(logf, "wb") as f:
+            f.write(prefill)
     with open(os.path.join(conf, "snoopy.ini"), "w") as f:
         f.write("[snoopy]\nlog_message_max_length = 65535\ndatasource_message_max_length = 65535\nmessage_format = \"%%{cmdline}\"\noutput = file:%s\n" % logf)
     env = {"PATH": "/usr/bin:/bin", "LD_PRELOAD": "%s %s" % (bld.lib, os.path.join(HBIN, "libvrec.so"))}
@@ -193,8 +198,9 @@ def main():
     chunks = [SIZES] + [rnd_sizes[i:i + 25] for i in range(0, len(rnd_sizes), 25)]
     idx = 0
     for ch in chunks:
-        jobs.append((bld, "file", ch, rng.choice([b"", b"old line\n", b"unterminated old content", b"x" * 5000 + b"\n"]), root, idx))
+        jobs.append((bld, "file", ch, rng.choice([None, b"", b"old line\n", b"unterminated old content", b"x" * 5000 + b"\n"]), root, idx))
         idx += 1
+    jobs.append((bld, "file", [1, 100, 4096, 5000], None, root, idx)); idx += 1      # fresh file, created by the first record
     jobs.append((bld, "devnull", SIZES, b"", root, idx)); idx += 1
     jobs.append((bld, "devtty", [1, 2, 100, 1000], b"", root, idx)); idx += 1
     for f, st in pmap(trace_case, jobs, 16):
